@@ -63,6 +63,12 @@ type Thread struct {
 	lastTook int
 	prefMiss bool
 	op       string
+	// wasBlocked is set by the scheduler when it finds the thread blocked
+	// in a real operation at a quiescent state; the next Woke call then
+	// parks, so that a thread woken by another thread's operation or by a
+	// timer does not run on concurrently with the thread that has the
+	// token.
+	wasBlocked atomic.Bool
 
 	evMu   sync.Mutex
 	events []string
@@ -279,6 +285,24 @@ func (t *Thread) park(s *Sched, site string, prefN int) int {
 	return v
 }
 
+// Woke is placed right after every operation that can block. If the calling
+// thread really was blocked there (the scheduler saw it blocked at a quiescent
+// state), it parks: which of several threads woken at the same instant
+// continues first is then the scheduler's decision, and at most one thread
+// runs at any time.
+func Woke(site string) {
+	s := active.Load()
+	if s == nil || s.free.Load() {
+		return
+	}
+	t := s.me()
+	if t == nil || !t.wasBlocked.Load() {
+		return
+	}
+	t.wasBlocked.Store(false)
+	t.park(s, "woke:"+site, 0)
+}
+
 // Pref is the scheduling point in front of a rewritten select with n
 // communication cases. It returns the case the scheduler prefers, or -1.
 func Pref(site string, n int) int {
@@ -457,6 +481,11 @@ func (s *Sched) collect() {
 	}
 	s.mu.Unlock()
 	for _, t := range s.threads {
+		if t.state.Load() == stRunning {
+			// not parked, not finished, and everything is durably
+			// blocked: the thread is blocked in a real operation
+			t.wasBlocked.Store(true)
+		}
 		t.evMu.Lock()
 		evs := t.events
 		t.events = nil
